@@ -765,7 +765,7 @@ def gen_op(world, rng, allow_hostile=True):
         leafs = [c for c in mains + derived if not any(is_in(c, m.deps[id(dc)]) for dc in m.derived if is_in(dc, comps))]
         inputs = [c for c in mains + derived if not is_in(c, leafs)]
         v = rng.choices(["leaf", "input_of_derived", "pixel", "world", "absent", "same", "onto_existing"],
-                        [8, 2 if allow_hostile else 0, 2, 2, 2, 1, 1 if allow_hostile else 0])[0]
+                        [8, 3, 2, 2, 2, 1, 1])[0]
         if v == "leaf" and not leafs:
             v = "absent"
         if v == "input_of_derived" and not inputs:
@@ -774,8 +774,8 @@ def gen_op(world, rng, allow_hostile=True):
             v = "absent"
         if v == "world" and not wor:
             v = "absent"
-        free_mains = [c for c in mains if is_in(c, leafs)]
-        if v == "onto_existing" and (len(mains) < 2 or not free_mains):
+        numeric_mains = [c for c in mains if _is_plain_numeric(d, c)]
+        if v == "onto_existing" and len(numeric_mains) < 2:
             v = "absent"
         lab = m.fresh("u")
         if v == "absent":
@@ -787,21 +787,16 @@ def gen_op(world, rng, allow_hostile=True):
             return Op("update_id", v, m, lambda: d.update_id(old, old), after=lambda b, ret: list(b.comps),
                       ledger={"replaced": []}, desc=old.label)
         if v == "onto_existing":
-            # the target must not feed a derived attribute (its values silently become those of `old`, possibly of another kind)
-            new = rng.choice(free_mains)
-            old = rng.choice([c for c in mains if c is not new])
+            # an identifier collision: not a valid re-identification, so no outcome is modelled - glue may reject it or
+            # merge the two, but the invariants and the ledger must hold afterwards. Both are numeric stored attributes
+            # (a derived attribute that ends up reading a categorical column is unreadable by construction, which is
+            # outside the domain exactly as deriving from a categorical column directly would be).
+            old, new = rng.sample(numeric_mains, 2)
 
-            def post_onto(ret, b, old=old):
+            def post_onto(ret, b, old=old, new=new):
+                # whatever survives of the dependants of `old` can only be reading `new` now
                 for dc in m.derived:
-                    if is_in(old, m.deps[id(dc)]) and not is_in(dc, m.orphaned):
-                        m.orphaned.append(dc)
-                changed = True
-                while changed:
-                    changed = False
-                    for dc in m.derived:
-                        if not is_in(dc, m.orphaned) and any(is_in(i, m.orphaned) for i in m.deps[id(dc)]):
-                            m.orphaned.append(dc)
-                            changed = True
+                    m.deps[id(dc)] = [new if i is old else i for i in m.deps[id(dc)]]
             return Op("update_id", v, m, lambda: d.update_id(old, new), expect="any", desc=[old.label, new.label], post=post_onto)
         if v == "leaf":
             old = rng.choice(leafs)
@@ -817,23 +812,13 @@ def gen_op(world, rng, allow_hostile=True):
             new = ComponentID(lab)
 
         def post(ret, b, old=old, new=new, v=v):
-            # dependants recorded by the harness still name `old` (the harness does not know what glue does with them)
+            # re-identifying keeps values, order and dependencies: whatever read `old` reads `new` from now on
             for dc in m.derived:
-                if is_in(old, m.deps[id(dc)]):
-                    if not is_in(dc, m.orphaned):
-                        m.orphaned.append(dc)
+                m.deps[id(dc)] = [new if i is old else i for i in m.deps[id(dc)]]
             # a re-identified derived attribute keeps its own inputs
             if is_in(old, m.derived):
                 m.derived[ids(m.derived).index(id(old))] = new
                 m.deps[id(new)] = m.deps[id(old)]
-            # transitive dependants of an orphan are orphans too
-            changed = True
-            while changed:
-                changed = False
-                for dc in m.derived:
-                    if not is_in(dc, m.orphaned) and any(is_in(i, m.orphaned) for i in m.deps[id(dc)]):
-                        m.orphaned.append(dc)
-                        changed = True
         if v in ("pixel", "world") and any(is_in(old, m.deps[id(dc)]) for dc in m.derived if is_in(dc, comps)):
             v = v + "+input_of_derived"
         return Op("update_id", v, m, lambda: d.update_id(old, new),
@@ -844,7 +829,7 @@ def gen_op(world, rng, allow_hostile=True):
     if kind == "update_components":
         plain = [c for c in mains if _is_plain_numeric(d, c)]
         v = rng.choices(["one_by_id", "two_by_id", "by_component", "wrong_shape", "second_wrong_shape", "derived_target", "empty_mapping"],
-                        [6, 3, 3, 3, 2, 1 if allow_hostile else 0, 1])[0]
+                        [6, 3, 3, 3, 2, 2, 1])[0]
         if not plain and v != "empty_mapping":
             v = "empty_mapping"
         if v == "two_by_id" and len(plain) < 2:
@@ -876,16 +861,10 @@ def gen_op(world, rng, allow_hostile=True):
             return Op("update_components", v, m, lambda: d.update_components(mp), expect="raise", ledger={"numerical": "no"},
                       desc=labels(mp))
         else:
-            c = rng.choice([c for c in m.derived if is_in(c, comps)])
+            c = rng.choice([c for c in m.derived if is_in(c, comps)] + list(d.pixel_component_ids))
             mp = {c: values(rng, shape)}
-
-            def post(ret, b, c=c):
-                m.broken_by_harness.append(c)
-                for dc in m.derived:
-                    if any(is_in(i, m.broken_by_harness) for i in m.deps[id(dc)]) and not is_in(dc, m.broken_by_harness):
-                        m.broken_by_harness.append(dc)
-            return Op("update_components", v, m, lambda: d.update_components(mp), expect="any", ledger={"numerical": "any"},
-                      desc=labels(mp), post=post)
+            return Op("update_components", v, m, lambda: d.update_components(mp), expect="raise", ledger={"numerical": "no"},
+                      desc=labels(mp))
         keys = list(mp.keys())
         return Op("update_components", v, m, lambda: d.update_components(mp), after=lambda b, ret: list(b.comps),
                   ledger={"numerical": "yes", "numerical_keys": keys}, desc=[getattr(k, "label", "component-object") for k in keys])
